@@ -208,10 +208,11 @@ fn parse_field(base_data_size: usize, field: &Field) -> Result<FieldDefinition> 
                                     "bitfield!: bit requires an inclusive range, for examples bits(10..=19). bit(10) allows specifying a single bit",
                                 ));
                             }
-                            ranges.push(Range {
-                                start: lower,
-                                end: upper + 1,
-                            });
+                            // Checked: a bit index of usize::MAX must not wrap around to 0
+                            let end = upper.checked_add(1).ok_or_else(|| {
+                                Error::new_spanned(&range_span, "bitfield!: Bit index is too large")
+                            })?;
+                            ranges.push(Range { start: lower, end });
                         }
                         ArgumentParser::RangeGotLowerLimit(lower) => {
                             if is_range && !is_in_array {
@@ -220,10 +221,10 @@ fn parse_field(base_data_size: usize, field: &Field) -> Result<FieldDefinition> 
                                     "bitfield!: bits requires a single bit, for examples bit(10). bits(10..=12) can be used to specify multiple bits",
                                 ));
                             }
-                            ranges.push(Range {
-                                start: lower,
-                                end: lower + 1,
-                            });
+                            let end = lower.checked_add(1).ok_or_else(|| {
+                                Error::new_spanned(&range_span, "bitfield!: Bit index is too large")
+                            })?;
+                            ranges.push(Range { start: lower, end });
                         }
                         ArgumentParser::ReadWrite => {
                             provide_getter = true;
@@ -305,7 +306,16 @@ fn parse_field(base_data_size: usize, field: &Field) -> Result<FieldDefinition> 
 
     // We know that ranges has at least one value
     // TODO: Verify all uses of this - some are still good, others not so much
-    let number_of_bits = ranges.iter().fold(0, |a, b| a + b.end - b.start);
+    // Checked: a range whose lower limit is above its upper limit must not wrap around to a small width
+    let number_of_bits = ranges
+        .iter()
+        .try_fold(0usize, |a, b| a.checked_add(b.end)?.checked_sub(b.start))
+        .ok_or_else(|| {
+            Error::new_spanned(
+                field.attrs.first(),
+                format!("bitfield!: Field {} has a bit range whose upper limit is below its lower limit", field_name),
+            )
+        })?;
 
     let (field_type_size, primitive_type) = match field_type_size_from_data_type {
         None => (number_of_bits, {
